@@ -377,6 +377,8 @@ fn text_seeds() -> Vec<Seed> {
     // generated text seeds: one per line format the text readers know
     add("gen:logcat_monotonic", "txt", b"     1.123   100   200 I tag: hello\n     2.123   100   200 W other_tag: world 42\n".to_vec());
     add("gen:logcat_threadtime", "txt", b"--------- beginning of main\n01-01 00:00:01.000  100   100 I first  : ok\n01-01 00:00:02.500  100   101 E second: not ok\n".to_vec());
+    // fractions of 2 and 1 digits: with one 2-byte / 3-byte character the time stamp has the expected byte length again
+    add("gen:logcat_threadtime_short_fraction", "txt", b"--------- beginning of main\n01-01 00:00:01.12  100   100 I first  : ok\n01-01 00:00:02.5  100   101 E second: not ok\n".to_vec());
     add("gen:genlog", "log", b"[2024-03-09 23:01:31.627] [INF] [conftest] some text: 3.44 %\n[2024-03-09 23:01:32.627] [ERR] [other] more text\n".to_vec());
     add("gen:asc", "asc", b"date Tue Apr 12 08:55:37 AM 2022\nbase hex timestamps absolute\n//BusMapping: CAN 1 = Bus1\n0.985210 1 36f Rx d 5 f2 f7 fe ff 14 Length = 0 BitCount = 0 ID = 879\n".to_vec());
     v
@@ -456,6 +458,24 @@ fn grammar_cases() -> Vec<(String, &'static str, Vec<u8>)> {
         let mut b = format!("date Tue Apr 12 08:55:37 AM 2022\nbase hex timestamps absolute\n//BusMapping: CAN 1 = {long}\n").into_bytes();
         b.extend_from_slice(b"0.500000 1 36f Rx d 2 01 02 Length = 0 BitCount = 0 ID = 879\n");
         out.push((format!("asc_long_busname:{n}"), "asc", b));
+    }
+    for n in [21_000usize, 65_500, 65_514, 65_520, 65_536, 70_000] {
+        let mut b = pre.clone();
+        let mut line = format!("0.100000 1 36f Rx d {n}");
+        for _ in 0..n {
+            line.push_str(" 00");
+        }
+        line.push_str(" Length = 0 BitCount = 0 ID = 879\n0.200000 1 36f Rx d 1 01 Length = 0 BitCount = 0 ID = 879\n");
+        b.extend_from_slice(line.as_bytes());
+        out.push((format!("asc_long_data:{n}"), "asc", b));
+        let mut b = pre.clone();
+        let mut line = format!("0.100000 CANFD   1 Rx        123  name  1 0 f {n}");
+        for _ in 0..n {
+            line.push_str(" 00");
+        }
+        line.push_str("  0 0 0 0 0 0 0 0\n");
+        b.extend_from_slice(line.as_bytes());
+        out.push((format!("asc_canfd_long_data:{n}"), "asc", b));
     }
     for t in ["4294967295.999999", "4294967296.000000", "429496.729500", "429496.729600", "42949672.950000", "42949672.960000", "9223372036854.775807", "9223372036855.000000", "9999999999999.985210", "9999999999999999.985210", "18446744073709.551615", "18446744073709.551", "18446744073710.0", "99999999999999.999", "9999999999999999.123", "99999999999999999.123", "18446744073709551615.0", "18446744073709551616.0", "99999999999999999999.1"] {
         out.push((format!("logcat_mono_time:{t}"), "txt", format!("     1.000   100   200 I tag: first\n{t}   100   200 I tag: hello\n     3.000   100   200 I tag: last\n").into_bytes()));
@@ -543,6 +563,11 @@ impl Chain {
             // 1. read
             let it = get_dlt_message_iterator(ext, 0, Cursor::new(bytes), ns, None, Some(1_650_000_000_000_000), None);
             let msgs: Vec<DltMessage> = it.take(5000).collect();
+            if ext == "asc" {
+                // the same file as a further file of a multi-file open (a reference time is handed over)
+                let n2 = get_dlt_message_iterator(ext, 0, Cursor::new(bytes), ns, Some(1_649_000_000_000_000), Some(1_650_000_000_000_000), None).take(5000).count();
+                std::hint::black_box(n2);
+            }
             // 2. render / re-serialise
             let mut sink: Vec<u8> = Vec::with_capacity(4096);
             let mut eac = EacStats::new();
@@ -710,7 +735,7 @@ impl Prop for C03 {
         Meta {
             id: "C03",
             level: "fault_enumeration",
-            rule: "seed corpus = generated DLT traces covering every verbose argument type, non-verbose, header shapes, every control service id (request/response, non-verbose and verbose, with bodies for the parsed ones), FLST/FLDA/FLFI, network traces, lifecycle shapes + the plugin-specific message pool of the C19 explorer (NonVerbose / SOME/IP incl. segmented NWST-NWCH-NWEN / CAN / Muniic / Rewrite hits and near misses, 82 messages) + the first 40 (thorough: 200) messages of each repository .dlt example + the repository .asc/.txt/.log examples (prefixes). Mutation operators, each enumerated completely over every seed: (a) every truncation point, (b) every offset x {00,01,7F,80,FF,b^1,b^80}, (b2) every offset x 16-bit {0,FFFF,1} / 32-bit {0,FFFFFFFF} windows, (c) every recorded header/type-info/length/numeric/service-id/timestamp field x boundary table (service ids: all known ids, flag bytes: all 256 values), (d) every ordered pair splice of generated DLT seeds at message boundaries, (e) every pair of fields at most 8 apart x corner values for the file-transfer seed (thorough: every pair of adjacent field corruptions x full boundary table for control and file-transfer seeds), (b3) text seeds: every offset replaced by a multi-byte UTF-8 character (a symbol and two non-ASCII white-space characters), (g) uncorrupted multi-lifecycle histories: the boot-trace product of the C08 explorer (1 ECU x 1..2 boots, 2 ECUs x up to (2,2) boots x every interleaving) as valid DLT files, (h) every lifecycle event sequence up to depth 3 over the 40-symbol alphabet and up to depth 6 over the suspend/resume alphabet of the C05-C07 explorer (detection + listing only; thorough: depth 4 / 8), (f) grammar products of text lines (incl. all ordered pairs of 14 odd tags incl. short multi-byte ones for logcat and generic logs) (timestamp forms x pid/level/tag/text shapes for logcat, time/channel/id/dlc/data for CAN-ASC incl. header lines, date/level/tag for generic logs). Every case runs the full chain on the real code: reader by extension, header/payload text, argument iteration, to_write, EacStats, lifecycle detection + listing, time sort, 10 filters (matches, match_filters, filter_as_streams), FileTransfer(save)/NonVerbose/SomeIp/CAN/Muniic/Rewrite/Anonymize plugins. Oracle: no panic (overflow checks on), no process death (worker isolation), no allocation request >= 32 MiB whose size the unmutated seeds never request. Non-trivial = at least one message was parsed or a violation occurred.".into(),
+            rule: "seed corpus = generated DLT traces covering every verbose argument type, non-verbose, header shapes, every control service id (request/response, non-verbose and verbose, with bodies for the parsed ones), FLST/FLDA/FLFI, network traces, lifecycle shapes + the plugin-specific message pool of the C19 explorer (NonVerbose / SOME/IP incl. segmented NWST-NWCH-NWEN / CAN / Muniic / Rewrite hits and near misses, 82 messages) + the first 40 (thorough: 200) messages of each repository .dlt example + the repository .asc/.txt/.log examples (prefixes). Mutation operators, each enumerated completely over every seed: (a) every truncation point, (b) every offset x {00,01,7F,80,FF,b^1,b^80}, (b2) every offset x 16-bit {0,FFFF,1} / 32-bit {0,FFFFFFFF} windows, (c) every recorded header/type-info/length/numeric/service-id/timestamp field x boundary table (service ids: all known ids, flag bytes: all 256 values), (d) every ordered pair splice of generated DLT seeds at message boundaries, (e) every pair of fields at most 8 apart x corner values for the file-transfer seed (thorough: every pair of adjacent field corruptions x full boundary table for control and file-transfer seeds), (b3) text seeds: every offset replaced by a multi-byte UTF-8 character (a symbol, two non-ASCII white-space characters, two non-ASCII digits), (g) uncorrupted multi-lifecycle histories: the boot-trace product of the C08 explorer (1 ECU x 1..2 boots, 2 ECUs x up to (2,2) boots x every interleaving) as valid DLT files, (h) every lifecycle event sequence up to depth 3 over the 40-symbol alphabet and up to depth 6 over the suspend/resume alphabet of the C05-C07 explorer (detection + listing only; thorough: depth 4 / 8), (f) grammar products of text lines (incl. all ordered pairs of 14 odd tags incl. short multi-byte ones for logcat and generic logs) (timestamp forms x pid/level/tag/text shapes for logcat, time/channel/id/dlc/data for CAN-ASC incl. header lines, date/level/tag for generic logs). Every case runs the full chain on the real code: reader by extension, header/payload text, argument iteration, to_write, EacStats, lifecycle detection + listing, time sort, 10 filters (matches, match_filters, filter_as_streams), FileTransfer(save)/NonVerbose/SomeIp/CAN/Muniic/Rewrite/Anonymize plugins. Oracle: no panic (overflow checks on), no process death (worker isolation), no allocation request >= 32 MiB whose size the unmutated seeds never request. Non-trivial = at least one message was parsed or a violation occurred.".into(),
             assumptions: vec!["crash-freedom is decided for the enumerated neighbourhood, not for all byte strings".into(),
                 "FIBEX-configured plugins are re-created every 300 cases (their state carries over within such a window); a panic is re-checked on the single case by replay".into(),
                 "serial-framed DLT is covered through the byte operators on seeds re-framed with DLS markers".into()],
@@ -853,7 +878,7 @@ impl Prop for C03 {
             return;
         }
         // (b3) text formats: every offset replaced by a multi-byte UTF-8 character (the result stays valid UTF-8)
-        ctx.begin_family("multibyte", "text seeds: every offset replaced by a multi-byte UTF-8 character: EURO SIGN, IDEOGRAPHIC SPACE, NO-BREAK SPACE (byte offsets vs char boundaries, non-ASCII white space)");
+        ctx.begin_family("multibyte", "text seeds: every offset replaced by a multi-byte UTF-8 character: EURO SIGN, IDEOGRAPHIC SPACE, NO-BREAK SPACE, ARABIC-INDIC DIGIT THREE, FULLWIDTH DIGIT ONE (byte offsets vs char boundaries; white space and digits that are not ASCII but match \\s / \\d)");
         'm: for s in text.iter() {
             if !s.bytes.is_ascii() {
                 continue;
@@ -863,7 +888,7 @@ impl Prop for C03 {
                     continue;
                 }
                 // a symbol, and white space that is not ASCII (regular expressions count it as \\s, byte arithmetic does not)
-                for ch in ["\u{20ac}", "\u{3000}", "\u{a0}"] {
+                for ch in ["\u{20ac}", "\u{3000}", "\u{a0}", "\u{663}", "\u{ff11}"] {
                     if ctx.mine() {
                         let mut b = s.bytes[..off].to_vec();
                         b.extend_from_slice(ch.as_bytes());
